@@ -20,6 +20,7 @@ def run(ctx):
         prog = ctx.prog(c)
         ctx.guard("C05", "guard", lambda: text.store_guard(ctx, prog))
         ctx.guard("C05", "len", lambda: text.len_formula(ctx, prog))
+        ctx.guard("C05", "layout", lambda: text.layout(ctx, prog))
         ctx.guard("C05", "ascii", lambda: text.ascii_only(ctx, prog))
         ctx.guard("C05", "one", lambda: text.one_formatter(ctx, prog))
         ctx.guard("C05", "tables", lambda: data.base64_tables(ctx, prog))
